@@ -136,6 +136,10 @@ LAWS = [
     ("in-chain-call-as", lambda fn, cap, ctx: (f"h({ctx}, g > {fn}() as r)", f"h({ctx}, g({fn}() as r))")),
     ("in-chain-call-as2", lambda fn, cap, ctx: (f"h({ctx}, g > {fn}({cap}) as r)", f"h({ctx}, g({fn}({cap}, #value as r)))")),
     ("in-call-eq", lambda fn, cap, ctx: (f"h(q, {fn}({ctx})=1)", f"h(q, {fn}({ctx}, #value=1))")),
+    # redundant grouping parentheses around an operand of an argument list change nothing (the operand is not at the root)
+    ("group-operand", lambda fn, cap, ctx: (f"{fn}(({cap}), !w)", f"{fn}({cap}, !w)")),
+    ("group-operand-cat", lambda fn, cap, ctx: (f"{fn}((x as v):@T, !w)", f"{fn}(x as v:@T, !w)")),
+    ("group-call-as", lambda fn, cap, ctx: (f"{fn}({ctx}, (g() as s), h(!w))", f"{fn}({ctx}, g() as s, h(!w))")),
     ("root-chain-call-as", lambda fn, cap, ctx: (f"g > {fn}({ctx}) as r", f"g({fn}({ctx}, !#value as r))")),
 ]
 
@@ -194,6 +198,13 @@ def main():
         o, obj = outcome(s)
         at = {"ok": False, "main": NONE, "focus": False, "main2": NONE, "focus2": False, "same_later": True}
         if isinstance(obj, (Element, Call)):
+            if len(cases) % 2 == 0:
+                # every other compiled selector is first asked which captures carry a focus mark (the lookup idiom
+                # sel.all_tags[n], an empty set when there is none): reading must not change what the selector is
+                try:
+                    obj.all_tags[1], obj.all_tags[2]
+                except (AttributeError, TypeError):
+                    pass
             at.update(attrs_of(obj))
             kept.append((len(cases), obj, s))
         cases.append({"id": len(cases), "kind": "parse", "src": src, "text": s, "toks": tokens(s), "out": o, "attrs": at})
@@ -262,6 +273,9 @@ def main():
            ("second-focus-alone", "fa(!!y)", "refuse", False, ["ValueError", "SelectorError"]),
            ("second-focus-alone2", "fa(x, !!y)", "refuse", False, ["ValueError", "SelectorError"]),
            ("override-without-focus", "fa(y)", "refuse", True, ["Exception", "SelectorError", "TypeError"]),
+           ("override-without-focus-nested", "ga(fa(y))", "refuse", True, ["Exception", "SelectorError", "TypeError"]),
+           ("override-without-focus-nested2", "ga(u, fa(x, y))", "refuse", True, ["Exception", "SelectorError", "TypeError"]),
+           ("override-without-focus-nested3", "ga(fa(y) as r)", "refuse", True, ["Exception", "SelectorError", "TypeError"]),
            ("unknown-variable", "fa > nothere", "refuse", False, R),
            ("not-a-function", "three > y", "refuse", False, ["TypeError"]), ("builtin-fn", "cls > y", "refuse", False, ["TypeError"]),
            ("unknown-module-ref", "/no.such.module/fn > y", "refuse", False, ["CodeNotFoundError", "SelectorError"]),
